@@ -43,7 +43,7 @@ Fixpoint decisions (c : cfg) (s : st) (ts : list Z) : list bool :=
   | t :: r => let (s', ok) := allow c s t in ok :: decisions c s' r
   end.
 
-(* number of admitted arrivals with a time stamp inside the window [t0, t1] *)
+(* number of allowed arrivals with a time stamp inside the window [t0, t1] *)
 Fixpoint calls (c : cfg) (s : st) (t0 t1 : Z) (ts : list Z) : Z :=
   match ts with
   | [] => 0
@@ -59,7 +59,7 @@ Inductive backend_answer := PwGood | PwBad | PwError.
 
 Record login_out := { status : Z; backend_called : bool }.
 
-(* projected status: 429 refused by the limiter, 200 admitted (any non-error class),
+(* projected status: 429 refused by the limiter, 200 let through (any non-error class),
    401 bad credentials, 500 backend error *)
 Definition login_step (c : cfg) (s : st) (e : entry) (t : Z) (a : backend_answer) : st * login_out :=
   let (s', ok) := allow c s t in
@@ -79,7 +79,7 @@ Definition backend_calls (outs : list login_out) : Z :=
 
 (* ---- correspondence with the float64 implementation.  A decision is a knife edge when the
         exact T_after is within p/2 of the threshold -p (half a nanosecond of refill): there
-        either verdict is admitted and the model continues along the one the implementation
+        either verdict is tolerated and the model continues along the one the implementation
         took.  Everywhere else the verdicts must be equal.                                   *)
 Definition knife_edge (c : cfg) (Tafter : Z) : bool :=
   (2 * Z.abs (Tafter + p c) <=? p c).
